@@ -194,7 +194,7 @@ PROPS = {
         "families": [("report.run", 1500, 80000)],
         "modelled_not_verified": [
             "serde_json / junit-report / console: byte-level serialisation; well-formedness and escaping are tested by parsing the real output back (names with quotes, <&>, ]]>, backslashes, non-ASCII), not proved",
-            "the plain terminal writer (writer::Basic) has no model of its own yet: it is exercised through JUnit's system-out rendering only",
+            "the plain terminal writer (writer::Basic) is modelled in non-terminal mode only (Coloring::Never): the branch that clears and re-draws lines is not modelled; docstrings, tables and the World dump (verbosity > 0) are not printed by the harness' features",
             "durations / timestamps are ignored; reporter CLI options other than the defaults are not varied yet",
         ],
     },
